@@ -15,7 +15,7 @@
      lookup_checkpoint_at is the transcribed binary search (fuel 32). *)
 From SC Require Import Lib.Prelude Lib.Int Lib.Host Model.Votes
   Proofs.VotesBasic Proofs.VotesTimeline Proofs.VotesState Proofs.VotesRun Proofs.VotesHistory
-  Proofs.C13Bounds Proofs.VotesTotal Proofs.VotesHook Proofs.C13Final Run.C13 Proofs.C13Monitor.
+  Proofs.C13Bounds Proofs.VotesTotal Proofs.VotesHook Proofs.C13Final Run.C13 Proofs.C13Monitor Proofs.C13Classes.
 From Coq Require Import Sorting.Sorted.
 Open Scope Z_scope.
 
@@ -218,6 +218,65 @@ Theorem C13_monitor_accepts_model : forall (h : header) (ins : list input),
   check (observe_model h ins) = (0%N, 0%N, 0%N).
 Proof. exact check_accepts_model. Qed.
 Print Assumptions C13_monitor_accepts_model.
+
+(* ------------------------------------------------------------------ *)
+(* Situation classes (special addresses, unusual values, sibling paths, aliasing) *)
+(* ------------------------------------------------------------------ *)
+(* All theorems above quantify over ALL addresses: the token contract's own address, another registered
+   contract, an account address are accounts like any other (the harness puts them into the observed
+   universe).  What distinguishes such an address is only that nobody can authorise for it.  For the
+   fungible votes tokens (wrapper and example): an address [a] that never occurs in an authorisation set
+   is a pure sink - along every run its balance and its voting units never decrease (it can still receive
+   and be minted to), and it never gets a delegate (it can still BE a delegatee and be queried). *)
+Theorem C13_nonsigner_is_a_sink : forall (h : header) (a : addr) (pre post : list (list addr * call)),
+  0 <= h_start h -> is_fungible (h_kind h) = true ->
+  (forall ac, In ac (pre ++ post) -> has_auth (fst ac) a = false) ->
+  let s1 := run h (init h) pre in
+  let s2 := run h (init h) (pre ++ post) in
+  balance_of s1 a <= balance_of s2 a /\
+  units_of (s_v s1) a <= units_of (s_v s2) a /\
+  delegate_of (s_v s2) a = None.
+Proof. exact nonsigner_is_a_sink_final. Qed.
+Print Assumptions C13_nonsigner_is_a_sink.
+
+(* A zero amount (mint / burn / burn_from / transfer / transfer_from of 0 on a fungible votes token),
+   whether the call succeeds or not, changes nothing any getter shows - balances, units, delegates, votes,
+   every checkpoint list (no checkpoint is written), supplies, and every past / future query - in ANY state. *)
+Theorem C13_zero_amount_changes_nothing : forall (h : header) (s : state) (auths : list addr) (c : call) (qs : list Z),
+  is_fungible (h_kind h) = true ->
+  ((exists to, c = Mint to 0) \/ (exists a, c = Burn a 0) \/ (exists sp a, c = BurnFrom sp a 0) \/
+   (exists a b, c = Transfer a b 0) \/ (exists sp a b, c = TransferFrom sp a b 0)) ->
+  observe h (fst (step h s auths c)) qs = observe h s qs.
+Proof. exact zero_amount_final. Qed.
+Print Assumptions C13_zero_amount_changes_nothing.
+
+(* A transfer to a muxed destination (account address + 64-bit id) is the transfer to that address. *)
+Theorem C13_muxed_transfer_is_transfer : forall (h : header) (s : state) (auths : list addr) (from to : addr) (mux_id x : Z),
+  step h s auths (TransferMuxed from to mux_id x) = step h s auths (Transfer from to x).
+Proof. exact muxed_transfer_final. Qed.
+Print Assumptions C13_muxed_transfer_is_transfer.
+
+(* Aliasing of the two delegates: a transfer / transfer_from (any amount or token id, any of the three
+   contracts, any state, any outcome) between two accounts that have the same delegate - or both none -
+   writes no checkpoint at all (every account timeline and the supply timeline are literally unchanged, so
+   no current or past answer moves) and changes no delegation. *)
+Theorem C13_same_delegate_transfer_writes_no_checkpoint :
+  forall (h : header) (s : state) (auths : list addr) (c : call) (from to : addr),
+  ((exists x, c = Transfer from to x) \/ (exists sp x, c = TransferFrom sp from to x)) ->
+  delegate_of (s_v s) from = delegate_of (s_v s) to ->
+  let s' := fst (step h s auths c) in
+  (forall ct, get_tl (s_v s') ct = get_tl (s_v s) ct) /\
+  (forall a, delegate_of (s_v s') a = delegate_of (s_v s) a).
+Proof. exact same_delegate_transfer_final. Qed.
+Print Assumptions C13_same_delegate_transfer_writes_no_checkpoint.
+
+(* from = to: a self-transfer (also through transfer_from, also of the full balance, where the units entry
+   is removed and re-created inside one call) changes nothing any getter shows, in any state. *)
+Theorem C13_self_transfer_changes_nothing : forall (h : header) (s : state) (auths : list addr) (c : call) (qs : list Z),
+  ((exists a x, c = Transfer a a x) \/ (exists sp a x, c = TransferFrom sp a a x)) ->
+  observe h (fst (step h s auths c)) qs = observe h s qs.
+Proof. exact self_transfer_final. Qed.
+Print Assumptions C13_self_transfer_changes_nothing.
 
 (* ------------------------------------------------------------------ *)
 (* Examples                                                             *)
@@ -450,3 +509,50 @@ Example C13_monitor_rejects_malformed_observations :
   mon_index (bad_h, [good_mint;
      ([], Advance 1, Ok 0, mkO 1 [mkA 5 5 None 0 []; Z0] 5 5 [(0, 5)] [] [(1, rf)])]) = 2%N.
 Proof. vm_compute. repeat split. Qed.
+
+(* ---- situation classes: non-vacuity and bad traces ---- *)
+(* universe of 5: accounts 0, 1 plain, 2 an account address (muxed destination), 3 a forwarder contract (it authorises:
+   it occurs in authorisation sets), 4 the token itself (never in an authorisation set).  The zero-amount and
+   self-transfer calls SUCCEED (the theorems are not about failing calls only); address 4 receives, is a delegatee with
+   voting power, is refused as sender / delegator, and ends with a larger balance and no delegate. *)
+Definition k_h : header :=
+  {| h_kind := KFung; h_n := 5; h_ids := 0; h_start := 0; h_maxttl := 100; h_owner := 0%N; h_db := false |}.
+Definition k_cs : list (list addr * call) :=
+  [([], Mint 4%N 50); ([], Mint 0%N 30); ([0%N], Delegate 0%N 4%N); ([], Advance 1);
+   ([0%N], Transfer 0%N 4%N 10); ([], Transfer 4%N 0%N 5); ([], Delegate 4%N 0%N);
+   ([0%N], TransferMuxed 0%N 2%N 77 4); ([3%N], Delegate 3%N 3%N); ([0%N], Transfer 0%N 0%N 16); ([0%N], Transfer 0%N 1%N 0)].
+Example C13_example_classes :
+  let s := run k_h (init k_h) k_cs in
+  map (fun k => is_ok (snd (step k_h (run k_h (init k_h) (firstn k k_cs)) (fst (nth k k_cs ([], Advance 0))) (snd (nth k k_cs ([], Advance 0))))))
+      [4; 5; 6; 7; 9; 10]%nat = [true; false; false; true; true; true] /\
+  balance_of s 4%N = 60 /\ units_of (s_v s) 4%N = 60 /\ delegate_of (s_v s) 4%N = None /\
+  get_votes (s_v s) 4%N = Ok 16 /\ balance_of s 2%N = 4 /\ units_of (s_v s) 2%N = 4 /\
+  get_votes_at 1 (s_v s) 4%N 0 = Ok 30 /\
+  check (observe_model k_h (map (fun ac => (fst ac, snd ac, [0; 1; 2])) k_cs)) = (0%N, 0%N, 0%N).
+Proof. vm_compute. repeat split. Qed.
+
+(* the token's own address (account 1 here) shows the vote total supply as ITS voting power (the two timelines
+   share their storage): nobody delegates to it, so votes <> sum of delegated units *)
+Example C13_monitor_rejects_own_address_aliasing_the_supply :
+  mon_index (bad_h,
+    [([], Mint 0%N 5, Ok 0, mkO 0 [mkA 5 5 None 0 []; mkA 0 0 None 5 [(0, 5)]] 5 5 [(0, 5)] [] [(0, rf)])]) = 1%N.
+Proof. vm_compute. reflexivity. Qed.
+
+(* tokens sent to the token's own address (account 1) are not counted as its voting units *)
+Example C13_monitor_rejects_units_not_credited_to_own_address :
+  mon_index (bad_h, [good_mint;
+     ([0%N], Transfer 0%N 1%N 2, Ok 0, mkO 0 [mkA 3 3 None 0 []; mkA 2 0 None 0 []] 5 3 [(0, 3)] [] [(0, rf)])]) = 2%N.
+Proof. vm_compute. reflexivity. Qed.
+
+(* a transfer to a muxed destination moves the tokens but not the voting units *)
+Example C13_monitor_rejects_muxed_transfer_without_units :
+  mon_index (bad_h, [good_mint;
+     ([0%N], TransferMuxed 0%N 1%N 77 2, Ok 0, mkO 0 [mkA 3 5 None 0 []; mkA 2 0 None 0 []] 5 5 [(0, 5)] [] [(0, rf)])]) = 2%N.
+Proof. vm_compute. reflexivity. Qed.
+
+(* the units entry that dropped to zero also dropped the account's delegate *)
+Example C13_monitor_rejects_delegate_lost_with_the_last_unit :
+  mon_index (bad_h, [good_mint;
+     ([0%N], Delegate 0%N 1%N, Ok 0, mkO 0 [mkA 5 5 (Some 1%N) 0 []; mkA 0 0 None 5 [(0, 5)]] 5 5 [(0, 5)] [] [(0, rf)]);
+     ([0%N], Transfer 0%N 1%N 5, Ok 0, mkO 0 [mkA 0 0 None 0 []; mkA 5 5 None 0 [(0, 0)]] 5 5 [(0, 5)] [] [(0, rf)])]) = 3%N.
+Proof. vm_compute. reflexivity. Qed.
